@@ -642,7 +642,7 @@ def decide(prop, tier, seed):
         if any(k != "pure" for k in TRANSLATOR_INFO):
             what.append("checklib/static_scopes.py regenerated lean/Cachelito/Cachelito/Generated/{LockNesting,BorrowNesting}.lean from /repo's current source before the build; the C17s / C16s theorems were checked against it")
         if "pure" in TRANSLATOR_INFO:
-            what.append("checklib/rust2lean.py regenerated lean/Cachelito/Cachelito/Generated/Pure{Mem,Utils,Entry,Stats,Policy,Async,Global,Thread,Wrap,WrapAsync,Registry,Keys}.lean (shallow translation of memory_estimator.rs, utils.rs, cache_entry.rs, stats.rs, eviction_policy.rs and of the victim scans and the store path of async_global_cache.rs) from /repo's current source before the build; the theorems of Props/T01..T21 (translated function = model definition) were re-proved against it")
+            what.append("checklib/rust2lean.py regenerated lean/Cachelito/Cachelito/Generated/Pure{Mem,Utils,Entry,Stats,Policy,Async,Global,Thread,Wrap,WrapAsync,Registry,StatsRegistry,Keys}.lean (shallow translation of memory_estimator.rs, utils.rs, cache_entry.rs, stats.rs, eviction_policy.rs and of the victim scans and the store path of async_global_cache.rs) from /repo's current source before the build; the theorems of Props/T01..T22 (translated function = model definition) were re-proved against it")
         cov["translator"] = dict(TRANSLATOR_INFO, what="; ".join(what))
     evaluations = 0
     validated = 0
